@@ -46,10 +46,11 @@ def CHACHA_RULES(kind):
 
 TF_FUNCS = "threefish_cipher::{mix, inv_mix, read_u64v_le, write_u64v_le, Threefish{256,512,1024}::{with_tweak, new, encrypt_block, decrypt_block}}"
 TF_RULES = [
-    (r"c09_le_io", dict(filter="c09_", props=["C09", "C10", "C05", "C16"], tier="quick", funcs=TF_FUNCS)),
-    (r"c09_(mix_contract|key_schedule)", dict(filter="c09_", props=["C09", "C10", "C05"], tier="quick", funcs=TF_FUNCS)),
-    (r"tf256::c09_encrypt_wiring", dict(filter="c09_", props=["C09", "C05", "C16"], tier="quick", funcs=TF_FUNCS, timeout=2400)),
-    (r"c09_encrypt_wiring", dict(filter="c09_", props=["C09", "C05"], tier="quick", funcs=TF_FUNCS, timeout=2400, tier_by_prop={"C05": "thorough"})),
+    (r"c09_le_io", dict(filter="c09_", props=["C09", "C10", "C16"], tier="quick", funcs=TF_FUNCS)),
+    (r"c09_mix_contract", dict(filter="c09_", props=["C09", "C10", "C05"], tier="quick", funcs=TF_FUNCS)),
+    (r"c09_key_schedule", dict(filter="c09_", props=["C09", "C10"], tier="quick", funcs=TF_FUNCS)),
+    (r"tf256::c09_encrypt_wiring", dict(filter="c09_", props=["C09", "C16"], tier="quick", funcs=TF_FUNCS, timeout=2400)),
+    (r"c09_encrypt_wiring", dict(filter="c09_", props=["C09"], tier="quick", funcs=TF_FUNCS, timeout=2400)),
     (r"c10_decrypt_wiring", dict(filter="c10_", props=["C10"], tier="quick", funcs=TF_FUNCS, timeout=2400)),
     (r"c10_round_inverse_lemma", dict(filter="c10_", props=["C10"], tier="quick", funcs="spec-level: spec/threefish.rs round_core/inv_core", timeout=1800)),
 ]
@@ -88,6 +89,8 @@ def HASH_RULES():
         (r"jh_core::wiring::c06_f8_wiring_(l4|gen)", dict(filter="jh_core::", props=["C06", "C03", "C16"], tier="quick", funcs=JF, timeout=3600, tier_by_prop={"C16": "thorough"})),
         (r"jh_core::wiring::c06_f8_wiring_", dict(filter="jh_core::", props=["C06", "C03"], tier="thorough", funcs=JF, timeout=3600)),
     ]
+    core.append((r"skein_ubi::c05_process_block", dict(filter="skein_ubi::", props=["C05", "C16"], tier="quick", timeout=3000, tier_by_prop={"C16": "thorough"},
+                 funcs="skein_hash::Skein{256,512,1024}::process_block with threefish_cipher::{with_tweak, encrypt_block, read/write_u64v_le} executed and mix as uninterpreted function")))
     return core + r
 
 
